@@ -50,4 +50,15 @@ def validate(pkg) -> None:
     """hugr-core validation of a compiled package (raises on invalid)."""
     import hugr.cli
 
-    hugr.cli.validate(pkg.to_bytes())
+    data = pkg if isinstance(pkg, bytes | bytearray) else pkg.to_bytes()
+    # the Rust validator prints "HUGR valid!" on fd 2; silence it around the call
+    sys.stderr.flush()
+    saved = os.dup(2)
+    devnull = os.open(os.devnull, os.O_WRONLY)
+    try:
+        os.dup2(devnull, 2)
+        hugr.cli.validate(data)
+    finally:
+        os.dup2(saved, 2)
+        os.close(saved)
+        os.close(devnull)
